@@ -225,10 +225,18 @@ def _clean(dec, enc, N, k, msgs, cfg, comp, res):
     import torch
     x = torch.tensor(msgs, dtype=torch.float32)
     cw = enc(x)
+    ncall = 0
     for mag in MAGS:
         llr = (1 - 2 * cw) * mag
-        for B in (len(msgs), 1, 3):
-            sub = llr[:B]
+        for B in (len(msgs), 1, 3, len(msgs)):
+            # the same decoder object serves all calls: every other call presents the words in reverse order (and the single word is another one),
+            # so that anything kept from the previous call belongs to different words
+            ncall += 1
+            B = min(B, len(msgs))
+            rev = ncall % 2 == 0
+            idx = list(range(len(msgs) - 1, len(msgs) - 1 - B, -1)) if rev else list(range(B))
+            sub = llr[idx]
+            xs = x[idx]
             try:
                 y = dec(sub)
             except Exception as e:  # noqa: BLE001
@@ -238,9 +246,9 @@ def _clean(dec, enc, N, k, msgs, cfg, comp, res):
             if tuple(y.shape) != (sub.shape[0], k):
                 res.viol(comp, cfg, "shape", f"output shape {tuple(y.shape)} for {sub.shape[0]} blocks, k={k}")
                 return
-            if not torch.equal(y.to(torch.float32), x[:B]):
-                i = int((y.to(torch.float32) != x[:B]).any(dim=1).nonzero()[0])
-                res.viol(comp, cfg, "clean", f"noise-free LLRs (magnitude {mag}, batch {B}) of message {msgs[i]} decoded to {y[i].tolist()}", {"msg": msgs[i], "mag": mag})
+            if not torch.equal(y.to(torch.float32), xs):
+                i = int((y.to(torch.float32) != xs).any(dim=1).nonzero()[0])
+                res.viol(comp, cfg, "clean", f"noise-free LLRs (magnitude {mag}, batch {B}, call {ncall} on this decoder) of message {xs[i].tolist()} decoded to {y[i].tolist()}", {"msg": xs[i].tolist(), "mag": mag})
                 return
 
 
